@@ -121,6 +121,8 @@ def multiset(rows):
 def run(ctx):
     ok, res = core.proof_step(ctx)
     rng = ctx.rng
+    from rdkit import RDLogger
+    RDLogger.DisableLog('rdApp.*')          # RDKit's C++ parser messages for the unreadable inputs
     cases, payloads, mexpr = [], {}, {}
     found_input = False
     dist = {'db_runs': 0, 'by_mode': {}, 'unreadable_inputs': 0, 'file_mode_runs': 0, 'subsets_stale': 0, 'subsets_crash': 0,
@@ -135,7 +137,7 @@ def run(ctx):
     from e3fp.fingerprint import generate as G
 
     # =========================================================================== A. database mode
-    n_sets = ctx.n(2, 8)
+    n_sets = ctx.n(5, 10)
     mode_grid = [('serial', None), ('serial', 3), ('threads', 2), ('threads', 4), ('processes', 2), ('processes', 3), ('processes', 1),
                  ('threads', 1), (None, 2), ('processes', 4), ('threads', 3)]
     for si in range(n_sets):
@@ -215,6 +217,12 @@ def run(ctx):
         G.run(files, out_dir_base=ref_base, out_ext=ext, level=level, bits=bits, first=first, all_iters=all_iters, parallel_mode='serial')
         ref_paths = out_paths(ref_base)
         ref_content = {p[0][len(ref_base):] + '/' + p[1]: PG.read_content(os.path.join(*p)) if os.path.isfile(os.path.join(*p)) else None for p in ref_paths}
+        missing_ref = [p for p in ref_paths if not os.path.isfile(os.path.join(*p))]
+        if missing_ref:
+            found_input = True
+            ctx.fail('an uninterrupted file-mode run did not write every level file of every readable input',
+                     {'inputs': [(os.path.basename(i['path']), i['kind'], i['name']) for i in inputs], 'all_iters': all_iters, 'level': level,
+                      'missing': [[p[0][len(ref_base):], p[1]] for p in missing_ref]}, kind='property')
         all_idx = list(range(len(ref_paths)))
         if subsets_mode == 'all':
             subsets = [list(s) for r_ in range(len(all_idx) + 1) for s in itertools.combinations(all_idx, r_)]
@@ -233,6 +241,8 @@ def run(ctx):
                     open(fn, 'wb').write(PG.SENTINEL % idx)
                     fs0.append((p, ('sentinel', idx)))
                 else:
+                    if not os.path.isfile(os.path.join(*ref_paths[idx])):
+                        continue
                     shutil.copyfile(os.path.join(*ref_paths[idx]), fn)
                     fs0.append((p, PG.read_content(fn)))
                 os.utime(fn, ns=(OLD_NS, OLD_NS))
@@ -305,6 +315,8 @@ def run(ctx):
         file_experiment('a', 2, True, 1, [], 'all')                 # 4 files: all 16 subsets x {stale, crash}
         file_experiment('b', 3, False, 2, ['garbage'], 'all')       # 3 files: all 8 subsets
         file_experiment('c', 3, True, 2, ['missing'], 6)
+        file_experiment('d', 2, True, 1, ['empty'], 'all', mode=('threads', 2))
+        file_experiment('e', 3, False, 2, [], 'all', mode=('processes', 2))
     else:
         file_experiment('a', 2, True, 1, [], 'all')
         file_experiment('a2', 2, True, 2, ['empty'], 'all')          # 6 files: 64 subsets
@@ -324,6 +336,15 @@ def run(ctx):
     loops = [direct_loop(i['mol'], i['name'], 1024, 2, False, 2, {}) for i in inputs]
     G.run(files, db_file=dbf, out_dir_base=base, level=2, bits=1024, first=2, parallel_mode='serial')
     db1 = load_db(dbf)
+    m1 = 'x_run %s [] %s true' % (cfg_lit(2, False, base, '.fp.bz2', False), listlit([input_lit(i, l) for i, l in zip(inputs, loops)]))
+    add_case('both/fresh', 'db_eqb (fst (%s)) %s' % (m1, db_lit(db1)), {'inputs': [i['name'] for i in inputs], 'db_rows': None if db1 is None else [o['name'] for o in db1['rows']]},
+             'fst (%s)' % m1)
+    ctx.count(('both', 'fresh'), True)
+    direct = multiset([o for lp in loops if lp[0] == 'ok' for k, col in lp[1] for o in col])
+    if db1 is None or multiset(db1['rows']) != direct:
+        found_input = True
+        ctx.fail('run(db_file=..., out_dir_base=...) into a fresh directory: the database differs from direct fingerprinting',
+                 {'inputs': [i['name'] for i in inputs], 'db_rows': None if db1 is None else [o['name'] for o in db1['rows']]}, kind='property')
     victim = inputs[1]
     os.remove(os.path.join(base + '2', victim['name'] + '.fp.bz2'))
     fs0 = [((base + '2', i['name'] + '.fp.bz2'), PG.read_content(os.path.join(base + '2', i['name'] + '.fp.bz2'))) for i in inputs if i is not victim]
@@ -347,7 +368,7 @@ def run(ctx):
     from e3fp.conformer.generate import generate_conformers
     from e3fp.conformer.util import mol_from_smiles, mol_from_sdf
     smis = [('CCO', 'eth'), ('CC(C)CO', 'ibu-x'), ('CCN', 'amine_a')]
-    n_cg = ctx.n(6, 40)
+    n_cg = ctx.n(12, 40)
     for ci in range(n_cg):
         cd = os.path.join(ctx.workdir, 'cg%d' % ci)
         os.makedirs(cd)
